@@ -539,3 +539,97 @@ def prev_minus_new(model: Model, fi: FuncInfo) -> dict:
             elif over_vals and isinstance(c.args[0], ast.Name) and c.args[0].id == k:
                 out['withdrawn'].append(c)
     return out
+
+
+# ---------------------------------------------------------------------------------------------- swapped arguments
+def swapped_arguments_rule(model: Model, run, scopes: tuple[str, ...], what: str, floor: int = 20) -> None:  # noqa: ANN001
+    """Positional arguments that are plain names (or attribute reads) and carry the names of two parameters of the callee, the
+    other way round: `f(adj_rib_in, adj_rib_out)` for `def f(adj_rib_out, adj_rib_in)`.  Two values of one type swap silently;
+    the names are what the author of both sides meant.  Calls inside `scopes` (module prefixes) are examined, after inlining
+    (a helper extracted from its caller is seen with the caller's argument names)."""
+
+    def aname(a: ast.AST) -> str | None:
+        if isinstance(a, ast.Name):
+            return a.id
+        if isinstance(a, ast.Attribute):
+            return a.attr
+        return None
+
+    n = 0
+    for q, fi in sorted(model.funcs.items()):
+        if not any(q.startswith(s_) for s_ in scopes):
+            continue
+        for c in walk_no_nested(fi.node):
+            if not isinstance(c, ast.Call) or len(c.args) < 2:
+                continue
+            cs = [x for x in model.callees(fi.module, c, by_name=False) if x in model.funcs or x in model.classes]
+            if len(cs) != 1:
+                continue
+            f = model.funcs.get(cs[0]) or model.effective(cs[0], '__init__')
+            if f is None:
+                continue
+            params = [a.arg for a in f.node.args.args]
+            if params and params[0] in ('self', 'cls', 'klass') and f.cls is not None:
+                params = params[1:]
+            names = [aname(a) for a in c.args]
+            n += 1
+            bad = None
+            for i in range(len(names)):
+                for j in range(i + 1, len(names)):
+                    if j < len(params) and names[i] and names[j] and names[i] != names[j] and names[i] == params[j] and names[j] == params[i]:
+                        bad = (i, j)
+            inst = '%s: %s' % (short(q), norm(c)[:60])
+            if bad is None:
+                continue
+            run.violation(
+                q,
+                'arguments %s and %s are passed in the order opposite to the parameters of %s' % (names[bad[0]], names[bad[1]], short(f.qualname)),
+                fi.loc(c),
+                '%s is declared (%s) and called with (%s): the two values have the same type, so nothing complains, and %s' % (short(f.qualname), ', '.join(params), ', '.join(x or '...' for x in names), what),
+            )
+    run.check(n >= floor, 'swapped-argument scan', '%d calls with two or more positional arguments examined' % n, '', 'scan floor %d' % floor) if n < floor else run.ok('swapped-argument scan', '%d calls examined' % n)
+
+
+# ---------------------------------------------------------------------------------------------- copies are complete
+def copy_completeness_rule(model: Model, run, scopes: tuple[str, ...], what: str, floor: int = 10) -> None:  # noqa: ANN001
+    """Every __copy__ / __deepcopy__ of a class with __slots__ gives the copy each slot the class declares, taken from the
+    same slot of the original (`new.x = ... self.x ...`): a slot left out or filled with a constant makes the copy a
+    different object."""
+    n = 0
+    for q, ci in sorted(model.classes.items()):
+        if not any(q.startswith(s_) for s_ in scopes):
+            continue
+        slots: list[str] = []
+        for st in ci.node.body:
+            if isinstance(st, (ast.Assign, ast.AnnAssign)):
+                tg = st.targets[0] if isinstance(st, ast.Assign) else st.target
+                if isinstance(tg, ast.Name) and tg.id == '__slots__' and isinstance(st.value, (ast.Tuple, ast.List)):
+                    slots = [e.value for e in st.value.elts if isinstance(e, ast.Constant) and isinstance(e.value, str)]
+        if not slots:
+            continue
+        for mn in ('__copy__', '__deepcopy__'):
+            f = ci.methods.get(mn)
+            if f is None:
+                continue
+            news = [a.targets[0].id for a in walk_no_nested(f.node) if isinstance(a, ast.Assign) and isinstance(a.targets[0], ast.Name) and isinstance(a.value, ast.Call) and '__new__' in norm(a.value)]
+            if not news:
+                continue
+            run.analysed(f)
+            new = news[0]
+            for slot in slots:
+                n += 1
+                asg = [a for a in walk_no_nested(f.node) if isinstance(a, ast.Assign) and dotted(a.targets[0]) == new + '.' + slot]
+                bad = [a for a in asg if ('self.' + slot) not in norm(a.value)]
+                inst = '%s.%s copies %s' % (short(q), mn, slot)
+                if asg and not bad:
+                    run.ok(inst)
+                else:
+                    run.violation(
+                        f.qualname,
+                        'the copy does not get the %s of the original (%s)' % (slot, norm(bad[0])[:50] if bad else 'never assigned'),
+                        f.loc(bad[0]) if bad else f.loc(),
+                        'the class declares the slot %s and %s builds the copy with __new__: the copy %s, so it is not the object that was '
+                        'copied - %s' % (slot, mn, ('gets %s instead' % norm(bad[0].value)[:40]) if bad else 'has no such slot at all', what),
+                    )
+    if n < floor:
+        run.cannot('only %d slots of copied classes examined' % n)
